@@ -227,8 +227,14 @@ Section Proto.
     end.
 
   (* one iteration of the loop in _handle_events; returns true to leave the loop *)
+  (* _last_response_in_progress: the client's last request is complete and the connection closes after the
+     response in progress (their side MUST_CLOSE while a stream is held): further input is ignored *)
+  Definition last_response_in_progress (p : h11p) : bool :=
+    negb (p_ws_mode p) && h1state_eqb (their_state (p_lib p)) MUST_CLOSE && p_stream_live p.
+
   Definition handle_one : MP bool :=
     p <- get ;;
+    if last_response_in_progress p then ret true else
     (if negb (p_ws_mode p) && l_waiting_100 (p_lib p)
      then send_h11_event (SInfo 100 (c_server_headers cfg)) else ret tt) ;;
     p <- get ;;
@@ -311,6 +317,10 @@ Section Proto.
   Definition proto_step (i : pinput) : MP unit :=
     match i with
     | IData evs =>
+        p <- get ;;
+        (* the client's last request is complete and the connection closes after the response in progress:
+           whatever else it sends is ignored (not even handed to h11) *)
+        if last_response_in_progress p then ret tt else
         emit (OLib [VS "receive_data"]) ;; modify (set_events evs) ;; handle_events (S (S (length evs)))
     | IClosed => handle_closed
     | IApp m evs =>
